@@ -215,7 +215,9 @@ def _ua_oracle(case, impl):
             finals[(m.group(4), m.group(3))].append(m.group(1))
     out = []
     script = case[5]
-    answered_by_app = any(x in script for x in (":accept", ":reject", ":cancel", ":bye"))
+    evs = [st.split(":")[1:] for st in script.split(",") if st]
+    # the pending INVITE gets its final from the application (accept / reject) or through a CANCEL that matches it / a BYE
+    answered_by_app = any(a and (a[0] in ("accept", "reject", "bye") or (a[0] == "cancel" and len(a) == 1)) for a in evs)
     for (branch, meth) in _ua_requests(script):
         codes = finals.get((branch, meth), [])
         if meth == "INVITE":
